@@ -7,6 +7,12 @@ SPEC = os.path.join(VERIF, "spec")
 HARNESS = os.path.join(VERIF, "harness")
 DRIVER = os.path.join(HARNESS, "target", "verif", "driver")
 WORKROOT = os.path.join(VERIF, ".work")
+# development aid (tools/coverage.sh): VERIF_COVERAGE=<dir> builds the driver with source-based coverage
+# instrumentation (nightly toolchain, separate target dir) and collects the raw profiles in <dir>
+COVERAGE = os.environ.get("VERIF_COVERAGE")
+if COVERAGE:
+    DRIVER = os.path.join(HARNESS, "target-cov", "verif", "driver")
+    os.environ["LLVM_PROFILE_FILE"] = os.path.join(COVERAGE, "cov-%8m.profraw")
 
 
 class ToolError(Exception):
@@ -35,8 +41,11 @@ def build_harness():
         except OSError:
             pass
         os.symlink(target, link)
-    rc, out = sh(["cargo", "build", "--offline", "--profile", "verif", "--bins"], cwd=HARNESS, env=env,
-                 timeout=1800)
+    cmd = ["cargo", "build", "--offline", "--profile", "verif", "--bins"]
+    if COVERAGE:
+        cmd = ["cargo", "+nightly", "build", "--offline", "--profile", "verif", "--bins", "--target-dir", "target-cov"]
+        env["RUSTFLAGS"] = "-C instrument-coverage"
+    rc, out = sh(cmd, cwd=HARNESS, env=env, timeout=1800)
     if rc != 0:
         raise ToolError("harness build failed:\n" + out[-4000:])
     return DRIVER
